@@ -718,13 +718,13 @@ def run_first(chk, stats):
 # --------------------------------------------------------------------------
 # hold suite: "peer in the middle of its first open" - one session (the holder)
 # is stopped before a chosen statement of its first open of a store (schema
-# statement, count, BEGIN, recount, each default INSERT, COMMIT, the delivery's
+# statement, count, BEGIN, recount, each default's allocator statement and INSERT, COMMIT, the delivery's
 # own statements); a session of the OTHER DBManager then does its complete first
 # open + operation; the holder is released.  Statement level, deterministic.
 
 ROLE = "team@example.com"
-INIT_SEQ = ["N", "B", "N", "C", "C", "C", "C", "C", "X"]
-HOLD_POINTS = ["T", "N", "B", "C", "X", "Y", "U", "I"]
+INIT_SEQ = ["N", "B", "N"] + ["V", "C"] * 5 + ["X"]     # V = UIDVALIDITY allocator, C = INSERT mailboxes
+HOLD_POINTS = ["T", "N", "B", "V", "C", "X", "Y", "U", "I"]
 
 
 def hold_ops(sc):
@@ -830,21 +830,21 @@ def model_h(sc, observed):
     kind, n = sc["where"]
     if kind == "ddl":
         return 0
-    return min(n, 9)
+    return min(n, len(INIT_SEQ))
 
 
 def run_hold(chk, stats):
     quick = chk.tier == "quick"
     scs = [{"kind": k, "peer": "D", "holder_sep": False, "where": ["dry", 0]} for k in ("role", "user")]
-    for q in range(0, 11):
+    for q in range(0, len(INIT_SEQ) + 2):
         scs.append({"kind": "role", "peer": "D", "holder_sep": q % 2 == 1, "where": ["tx", q]})
-    for j in (1, 14, 30):
+    for j in (1, 15, 31):
         scs.append({"kind": "role", "peer": "D", "holder_sep": False, "where": ["ddl", j]})
-    for q in ((2, 4, 8) if quick else range(0, 10)):
+    for q in ((2, 5, 13) if quick else range(0, 15)):
         scs.append({"kind": "role", "peer": "S", "holder_sep": True, "where": ["tx", q]})
-    for q in ((1, 2, 3, 4, 8) if quick else range(0, 11)):
+    for q in ((1, 2, 3, 4, 13) if quick else range(0, 16)):
         scs.append({"kind": "user", "peer": "D", "holder_sep": q % 2 == 0, "where": ["tx", q]})
-    for q in ((2, 5) if quick else range(0, 10)):
+    for q in ((2, 6) if quick else range(0, 15)):
         scs.append({"kind": "user", "peer": "L", "holder_sep": True, "where": ["tx", q]})
     for f in sorted(glob.glob(os.path.join(C.VERIF, "corpus", PID, "*.json"))):
         d = json.load(open(f))
